@@ -118,6 +118,14 @@ def check_bed(res, kind, exons, strand, cds, window, chrom_mode, menu, N, order=
         second = str(rec)
         if first != second:
             raise AssertionError(f"str(BED12) not repeatable: {first!r} then {second!r}")
+        # ... and so is the object: asked a second time (after the other coordinate mode was asked in between) it writes the same line
+        try:
+            obj.to_bed12(score=score, rgb=RGB(*rgb), name=name_arg, chromosome_relative_coordinates=not chrom_mode)
+        except Exception:  # noqa
+            pass
+        third = str(obj.to_bed12(score=score, rgb=RGB(*rgb), name=name_arg, chromosome_relative_coordinates=chrom_mode))
+        if third != first:
+            raise AssertionError(f"second to_bed12 differs: {first!r} then {third!r}")
         return first
 
     o = lib.outcome(render)
